@@ -177,7 +177,7 @@ Foreign1 == IF Only2 = <<>> THEN {} ELSE {<<F1[1], Only2[Len(Only2)]>>, <<Only2[
 Foreign2 == IF Only1 = <<>> THEN {} ELSE {<<Only1[1], F2[Len(F2)]>>, <<F2[1], F2[Len(F2)], Only1[Len(Only1)]>>}
 \* (for four-field inputs also every ordering of ALL four: a run of consecutive fields with its inner members out of order)
 VarChoices1 == IF Len(F1) >= 4 THEN {None} \cup OrderedLists(Rng(F1), 3) \cup {q \in OrderedLists(Rng(F1), 4) : Len(q) = 4} \cup Foreign1
-               ELSE {None, <<F1[1]>>, <<F1[Len(F1)], F1[1]>>, <<F1[1], "zz">>, <<"zz">>} \cup Foreign1
+               ELSE {None, <<F1[1]>>, <<F1[Len(F1)]>>, <<F1[Len(F1)], F1[1]>>, <<F1[1], "zz">>, <<"zz">>} \cup Foreign1
 VarChoices2 == IF Len(F2) >= 4 THEN {None} \cup {q \in OrderedLists(Rng(F2), 3) : Len(q) = 3} \cup Foreign2
                ELSE {None, <<F2[Len(F2)]>>, <<F2[1], F2[Len(F2)]>>, <<"zz", F2[Len(F2)]>>, <<F1[1]>>} \cup Foreign2
 
